@@ -308,6 +308,9 @@ class SecureField(Field):
     def _validate(self, cfg: Config, value: Any) -> str:
         if not isinstance(value, str):
             raise ValueError("value must be a string, not a %s" % type(value).__name__)
+        if self.required and not value:
+            # an empty secret is stored as null, which a required field then refuses to load
+            raise ValueError("value is required")
         return value
 
     def to_basic(self, cfg: Config, value: str) -> Optional[dict]:
